@@ -215,7 +215,16 @@ class MyPyAstVisitor:
                 # Check if the superclass name is an alias and find the real name
                 if superclass_name in self.aliases:
                     _, superclass_alias_qname = self._find_alias(superclass_name)
-                    superclass_qname = superclass_alias_qname if superclass_alias_qname else superclass_qname
+
+                    # If the name refers to a class directly, only another spelling of the path of that class is taken.
+                    # Another class of the package can have the same name.
+                    is_class_itself = isinstance(getattr(superclass, "node", None), mp_nodes.TypeInfo)
+                    if superclass_alias_qname and (
+                        not is_class_itself
+                        or superclass_qname == superclass_alias_qname
+                        or superclass_qname.endswith(f".{superclass_alias_qname}")
+                    ):
+                        superclass_qname = superclass_alias_qname
 
                 superclasses.append(superclass_qname)
 
